@@ -19,6 +19,7 @@ func init() {
 func propC02(a *Analysis, r *Registry) {
 	b := NewB(a, r)
 	X := b.X
+	X.NoInline["stats.(UDist).p"] = true // the table is named by its call; its own recurrence is decided below
 	S := X.S
 	const rB = "B-C02 formula"
 	const rC = "C-decision support"
@@ -80,40 +81,89 @@ func propC02(a *Analysis, r *Registry) {
 			env := X.EnvFor(fn, "d", "U")
 			fc := X.Under(fn, X.AssumeEq(env.MustParse("d.hasTies()"), S.False()),
 				X.AssumeCond(env.MustParse("U<0"), false), X.AssumeCond(env.MustParse("d.N1*d.N2<=U"), false))
-			var ret *ssa.Return
-			for _, rt := range fc.Ctx.Returns() {
-				if _, isC := rt.Results[0].(*ssa.Const); !isC {
-					ret = rt
-				}
-			}
-			if ret == nil {
-				anchorFail("no summation return")
-			}
-			rv := fc.Sub(fc.Val(ret.Results[0]))
 			env.Let("Ui", "int(floor(U))")
 			env.Let("flip", "idiv(d.N1*d.N2+1, 2)<=Ui")
 			env.Let("Uj", "ite(flip, d.N1*d.N2-Ui-1, Ui)")
-			phis := fc.loopPhis(rv)
-			var p *RF
-			for _, ph := range phis {
-				if !S.atoms[ph.SingleAtom().ID].Int {
-					p = ph
+			b.AnyOf(func() {
+				// one summation over d.p(Uj)[:Uj+1] with Uj chosen by the symmetry flip
+				var ret *ssa.Return
+				for _, rt := range fc.Ctx.Returns() {
+					if _, isC := rt.Results[0].(*ssa.Const); !isC {
+						ret = rt
+					}
 				}
-			}
-			if p == nil {
-				anchorFail("no accumulated sum")
-			}
-			env.Set("p", p, nil)
-			b.Eq(rB, name+"/untied/result", a.W.InstrPos(ret), rv, env, "ite(flip, 1-p, p)")
-			pi, pn := fc.Recurrence(p)
-			el := FindFn(pn, "idx")
-			if len(el) != 1 {
-				anchorFail("the sum does not add one element per iteration")
-			}
-			env.Set("e", S.atomRF(el[0].ID), nil)
-			b.EqRF(rB, name+"/untied/sum-init", b.pos(fn), pi, S.Int(0), "sum starts at 0")
-			b.EqUnder(rB, name+"/untied/sum-step", b.pos(fn), fc, pn, env, "p+e")
-			b.EqUnder(rB, name+"/untied/summed-range", b.pos(fn), fc, el[0].Args[0], env, "slice(d.p(Uj), _, Uj+1, _)")
+				if ret == nil {
+					anchorFail("no summation return")
+				}
+				rv := fc.Sub(fc.Val(ret.Results[0]))
+				phis := fc.loopPhis(rv)
+				var p *RF
+				for _, ph := range phis {
+					if !S.atoms[ph.SingleAtom().ID].Int {
+						p = ph
+					}
+				}
+				if p == nil {
+					anchorFail("no accumulated sum")
+				}
+				env.Set("p", p, nil)
+				b.Eq(rB, name+"/untied/result", a.W.InstrPos(ret), rv, env, "ite(flip, 1-p, p)")
+				pi, pn := fc.Recurrence(p)
+				el := FindFn(pn, "idx")
+				if len(el) != 1 {
+					anchorFail("the sum does not add one element per iteration")
+				}
+				env.Set("e", S.atomRF(el[0].ID), nil)
+				b.EqRF(rB, name+"/untied/sum-init", b.pos(fn), pi, S.Int(0), "sum starts at 0")
+				b.EqUnder(rB, name+"/untied/sum-step", b.pos(fn), fc, pn, env, "p+e")
+				b.EqUnder(rB, name+"/untied/summed-range", b.pos(fn), fc, el[0].Args[0], env, "slice(d.p(Uj), _, Uj+1, _)")
+			}, func() {
+				// a summing helper S(k) = sum of d.p(k)[0..k] called at the flipped or the plain point:
+				// result = flip ? 1 - S(N1*N2-Ui-1) : S(Ui)
+				rv := fc.Sub(fc.RetVal(0))
+				var sums []*Atom
+				for _, at := range rv.Atoms(true) {
+					if strings.HasPrefix(at.Name, "phi:") && len(at.Args) == 2 && at.Args[0].Equal(env.Vars["d"].RF) {
+						sums = append(sums, at)
+					}
+				}
+				if len(sums) == 0 || len(sums) > 2 {
+					r.Fail(rB, name+"/untied/result", b.pos(fn), "the result is not built from a summing helper: "+clip(rv.String(), 200))
+					return
+				}
+				e := X.EnvFor(fn, "d", "U")
+				for _, nm := range []string{"Ui", "flip", "Uj"} {
+					e.Vars[nm] = env.Vars[nm]
+				}
+				mk := func(k *RF) *RF { return S.MakeFn(sums[0].Name, env.Vars["d"].RF, k) }
+				e.Set("Sflip", mk(e.MustParse("d.N1*d.N2-Ui-1")), nil)
+				e.Set("Splain", mk(e.MustParse("Ui")), nil)
+				b.Eq(rB, name+"/untied/result", b.pos(fn), rv, e, "ite(flip, 1-Sflip, Splain)")
+				// the helper itself, at a generic point k: S(k) = sum_{i=0..k} d.p(k)[i]
+				for _, at := range sums {
+					pfc := X.phiFC[at.ID]
+					if pfc == nil {
+						r.Fail(rB, name+"/untied/sum-step", b.pos(fn), "the summing helper has no loop")
+						continue
+					}
+					p := S.atomRF(at.ID)
+					k := at.Args[1]
+					pi, pn := pfc.Recurrence(p)
+					el := FindFn(pn, "idx")
+					if len(el) != 1 {
+						r.Fail(rB, name+"/untied/sum-step", b.pos(pfc.Fn), "the sum does not add one element per iteration")
+						continue
+					}
+					e2 := X.EnvFor(fn, "d", "U")
+					e2.Set("p", p, nil)
+					e2.Set("e", S.atomRF(el[0].ID), nil)
+					e2.Set("k", k, nil)
+					b.EqRF(rB, name+"/untied/sum-init", b.pos(pfc.Fn), pi, S.Int(0), "sum starts at 0")
+					b.Eq(rB, name+"/untied/sum-step", b.pos(pfc.Fn), pn, e2, "p+e")
+					b.Eq(rB, name+"/untied/summed-range", b.pos(pfc.Fn), el[0].Args[0], e2, "d.p(k)")
+					b.FullScan("C-scan coverage", name+"/untied/summed-indices", b.pos(pfc.Fn), pfc, el[0].Args[1], e2.MustParse("k+1"))
+				}
+			})
 		})
 	}
 	b.Formula(rB, "stats.(UDist).Step", "stats.(UDist).Step", []string{"d"}, nil, 0, "0.5", nil)
@@ -141,49 +191,54 @@ func propC02(a *Analysis, r *Registry) {
 			env.Let("M", "ite(d.N2<d.N1, d.N1, d.N2)")
 			b.Eq(rB, name+"/returns", a.W.InstrPos(rets[0]), fc.Val(rets[0].Results[0]), env, "memo[N]")
 			nrec := 0
-			fc.Ctx.Instrs(func(in ssa.Instruction) {
-				st, ok := in.(*ssa.Store)
-				if !ok {
-					return
-				}
-				ia, ok := st.Addr.(*ssa.IndexAddr)
-				if !ok || !isFloatType(st.Val.Type()) {
-					return
-				}
-				row := fc.Val(ia.X).SingleAtom()
-				if row == nil || row.Name != "idx" || !row.Args[0].Equal(memo) {
-					return
-				}
-				if c, isC := fc.Val(st.Val).IsConst(); isC {
-					// memo[0][0] = 1
-					e2 := X.EnvFor(fn, "d", "U")
-					e2.Set("memo", memo, nil)
-					if c.Cmp(S.Int(1).N.terms[""].coef) == 0 {
-						b.Eq(rB, name+"/base p_{0,m}(0)=1", a.W.InstrPos(st), fc.Val(ia), e2, "addr(memo[0], 0)")
+			top := fc
+			// (the cell update may be made by a helper handed the rows)
+			for _, fc := range top.BoundCallees(1) {
+				fc := fc
+				fc.Ctx.Instrs(func(in ssa.Instruction) {
+					st, ok := in.(*ssa.Store)
+					if !ok {
+						return
 					}
-					return
-				}
-				nrec++
-				n := row.Args[1]
-				U1 := fc.Val(ia.Index)
-				env.Set("n", n, nil)
-				env.Set("U1", U1, nil)
-				v := fc.Val(st.Val)
-				// m from the lp index: lp[U1-m] with lp = memo[n-1]
-				var m *RF
-				for _, at := range FindFn(v, "idx") {
-					if at.Args[0].Equal(env.MustParse("memo[n-1]")) {
-						m = U1.Sub(at.Args[1])
+					ia, ok := st.Addr.(*ssa.IndexAddr)
+					if !ok || !isFloatType(st.Val.Type()) {
+						return
 					}
-				}
-				if m == nil {
-					r.Fail(rB, name+"/recurrence", a.W.InstrPos(st), "no term lp[U-m] with lp = memo[n-1] in the update: "+clip(v.String(), 300))
-					return
-				}
-				env.Set("m", m, nil)
-				b.Eq(rB, name+"/recurrence", a.W.InstrPos(st), v, env,
-					"(ite(0<=U1-m, n*memo[n-1][U1-m], 0) + m*ite(n<=m-1, memo[n], memo[m-1])[U1])/(n+m)")
-			})
+					row := fc.Val(ia.X).SingleAtom()
+					if row == nil || row.Name != "idx" || !row.Args[0].Equal(memo) {
+						return
+					}
+					if c, isC := fc.Val(st.Val).IsConst(); isC {
+						// memo[0][0] = 1
+						e2 := X.EnvFor(fn, "d", "U")
+						e2.Set("memo", memo, nil)
+						if c.Cmp(S.Int(1).N.terms[""].coef) == 0 {
+							b.Eq(rB, name+"/base p_{0,m}(0)=1", a.W.InstrPos(st), fc.Val(ia), e2, "addr(memo[0], 0)")
+						}
+						return
+					}
+					nrec++
+					n := row.Args[1]
+					U1 := fc.Val(ia.Index)
+					env.Set("n", n, nil)
+					env.Set("U1", U1, nil)
+					v := fc.Val(st.Val)
+					// m from the lp index: lp[U1-m] with lp = memo[n-1]
+					var m *RF
+					for _, at := range FindFn(v, "idx") {
+						if at.Args[0].Equal(env.MustParse("memo[n-1]")) {
+							m = U1.Sub(at.Args[1])
+						}
+					}
+					if m == nil {
+						r.Fail(rB, name+"/recurrence", a.W.InstrPos(st), "no term lp[U-m] with lp = memo[n-1] in the update: "+clip(v.String(), 300))
+						return
+					}
+					env.Set("m", m, nil)
+					b.Eq(rB, name+"/recurrence", a.W.InstrPos(st), v, env,
+						"(ite(0<=U1-m, n*memo[n-1][U1-m], 0) + m*ite(n<=m-1, memo[n], memo[m-1])[U1])/(n+m)")
+				})
+			}
 			if nrec != 1 {
 				r.Fail(rB, name+"/recurrence", b.pos(fn), "expected exactly one recurrence store into the table")
 			}
